@@ -153,13 +153,13 @@ def run(ctx):
             i = rng.randrange(len(fs))
             bad = list(env)
             f = U.inner(fs[i])
-            if isinstance(f, M.UnsignedInt):
+            if U.kind(f) in (M.UnsignedInt, M.CompletionCode):
                 bad[i] = ('int', 256 ** f.length + rng.randrange(1000))
                 kind = 'int-too-large'
-            elif type(f) is M.ByteArray:
+            elif U.kind(f) is M.ByteArray:
                 bad[i] = ('bytes', b'\x01' * (f.length + 1))
                 kind = 'array-wrong-length'
-            elif type(f) is M.Bitfield:
+            elif U.kind(f) is M.Bitfield:
                 bad[i] = ('bits', [2 ** b._width + 1 for b in f._bits])
                 kind = 'bit-too-large'
             else:
